@@ -31,6 +31,7 @@ from core import cb, clist, cn, cz, decode_res
 import lightworks as lw
 from lightworks import State, qubit
 from lightworks.emulator import Sampler, Simulator
+from lightworks.emulator.results import SamplingResult
 from lightworks.tomography import StateTomography
 import lightworks.tomography.state_tomography as _stmod
 import lightworks.tomography.mappings as _maps
@@ -83,6 +84,8 @@ def apply_gates(c, gates):
         elif name == "SWAP":
             a, b = g[1], g[2]
             c.add(qubit.SWAP((2 * a, 2 * a + 1), (2 * b, 2 * b + 1)), 0)
+        elif name == "PSP":          # [name, qubit, lw.Parameter]: phase on the |1> rail = P(value) on the qubit
+            c.ps(2 * g[1] + 1, g[2])
         else:
             raise ValueError(name)
     return c
@@ -147,6 +150,24 @@ def counts_from_probs(probs, rng, drop_zero):
         items = [it for it in items if it[1] != 0]
     rng.shuffle(items)
     return items
+
+
+def renorm(items, norm, rng):
+    """[(state, int count of total 1e15)] -> [[state, [num, den]]] in the form the case asks for:
+    'int' the counts themselves; 'varint' integer counts whose total differs from setting to setting;
+    'float' relative frequencies (unit total); 'sub' un-normalised probabilities (total < 1, different per setting).
+    [num, den] is the EXACT value handed to lightworks (a float is a dyadic rational)."""
+    if norm == "int":
+        return [[s, [v, 1]] for s, v in items]
+    if norm == "varint":
+        k = rng.choice([1, 3, 7, 1000, 12345])
+        return [[s, [v * k, 1]] for s, v in items]
+    f = 1.0 if norm == "float" else rng.choice([0.5, 0.37, 0.05, 0.81, 1e-3, 0.999])
+    out = []
+    for s, v in items:
+        x = Fraction(int(round(v / SCALE * f * 2**40)), 2**40)      # a float with a 40-bit mantissa: num / den is exact
+        out.append([s, [x.numerator, x.denominator]])
+    return out
 
 
 def noiseless_counts(circ, n, inp, via, rng, drop_zero):
@@ -221,7 +242,11 @@ class C15:
             "distribution of every requested circuit, dict order shuffled, order of the required settings natural or "
             "permuted; synthetic Born-rule counts of random mixed density matrices of every rank; arbitrary small "
             "integer/float counts incl. invalid dual-rail states, empty and zero-total results, wrong result-list length; "
-            "constructor argument validation. Non-trivial = a reconstruction (or error) from >=3 settings; distinct = distinct case JSON")
+            "constructor argument validation. Counts as integers (equal or different totals per setting), relative frequencies or "
+            "un-normalised probabilities, as dict or SamplingResult; experiment_args through the constructor or the attribute; the "
+            "experiment as function, bound method or assigned through the setter after construction; 40% of the circuit cases call "
+            "process() twice on one object (first call fine / raising / short / invalid data) with the base circuit extended in place "
+            "or a live Parameter changed in between; the callback edits every circuit it receives. Non-trivial = a reconstruction (or error) from >=3 settings; distinct = distinct case JSON")
     TRUSTED = ["scipy.linalg.sqrtm in state_fidelity is an oracle with the contract written in Proofs/TomoStateP.v (Section Fidelity); "
                "the numeric fidelity is checked by the Python oracle only",
                "the photonic level (dual-rail frequencies of a heralded/post-selected circuit = Born probabilities of its qubit state) "
@@ -267,8 +292,21 @@ class C15:
 
         def tomo(n, gates, **kw):
             d = dict(kind="tomo", n=n, gates=gates, inp=[0] * n, via="sim", perm=None, drop_zero=False,
-                     dseed=rng.randrange(10**6), twice=(len(gates) >= 1 and rng.random() < 0.3))
+                     dseed=rng.randrange(10**6), twice=(len(gates) >= 1 and rng.random() < 0.4))
             d.update(kw)
+            # API forms and histories (see impl): how the counts are normalised, optional experiment_args and how they are
+            # set, how the experiment function is given, results as SamplingResult objects, what happens in the first of
+            # two process() calls and how the base circuit is edited between them
+            d["norm"] = rng.choice(["int", "int", "float", "sub", "varint"])
+            d["args"] = rng.choice([None, None, [], [7], ["tag", 3]])
+            d["args_form"] = rng.choice(["ctor", "attr"])
+            d["exp_form"] = rng.choice(["ctor", "ctor", "setter", "method"])
+            d["as_result"] = rng.random() < 0.25
+            if d["twice"]:
+                d["first"] = rng.choice(["ok", "ok", "raise", "short", "invalid"])
+                d["edit"] = rng.choice(["add", "param"])
+                d["pq"] = rng.randrange(n)
+                d["th"] = [round(rng.uniform(-3, 3), 6), round(rng.uniform(-3, 3), 6)]
             return d
 
         # the cardinal single-qubit states and Y-sensitive states, exhaustively
@@ -341,7 +379,7 @@ class C15:
                               perm=rng.randrange(10**6) if rng.random() < 0.4 else None))
         # constructor validation
         for nq, base, ex in itertools.product([1, 2, True, 1.5, "2", None], ["c2", "c4", "c5", "cz_h", "list", None],
-                                              ["fn", "lambda", "none", "builtin", "callable_obj"]):
+                                              ["fn", "lambda", "none", "builtin", "callable_obj", "method"]):
             if quick and rng.random() < 0.6:
                 continue
             cases.append(dict(kind="init", nq=nq, base=base, ex=ex))
@@ -367,11 +405,19 @@ class C15:
         n = c["n"]
         aux = {"problems": []}
         twice = k == "tomo" and c.get("twice") and len(c["gates"]) >= 1
+        edit = c.get("edit", "add") if twice else None
+        param = None
         if k == "tomo":
             # twice: the tomography object is first used on a prefix of the base circuit, the base circuit is
-            # then extended IN PLACE and process() is called again: the second call must describe the circuit
-            # as it is then (one circuit per setting = current base circuit + basis changes)
-            base = build_base(n, c["gates"][:-1] if twice else c["gates"])
+            # then extended IN PLACE (edit 'add') - or it holds a live Parameter whose value is then changed (edit
+            # 'param') - and process() is called again: the second call must describe the circuit as it is then
+            # (one circuit per setting = current base circuit + basis changes)
+            if edit == "param":
+                base = build_base(n, c["gates"])
+                param = lw.Parameter(c["th"][0])
+                apply_gates(base, [["PSP", c["pq"], param]])
+            else:
+                base = build_base(n, c["gates"][:-1] if twice else c["gates"])
             inp = []
             for b in c["inp"]:
                 inp += [0, 1] if b else [1, 0]
@@ -385,12 +431,34 @@ class C15:
 
         phase = {"first": bool(twice)}
 
-        def experiment(circuits):
+        norm = c.get("norm", "int")
+        seen_args = aux["args_seen"] = []
+
+        def scribble(circuits):
+            # the circuits handed to the callback are the callback's: editing them must not reach the base circuit,
+            # the shared basis-change circuits or a later process() call
+            for circ in circuits:
+                try:
+                    circ.ps(0, 0.9)
+                    circ.bs(0)
+                except Exception:  # noqa: BLE001
+                    pass
+
+        def experiment(circuits, *extra):
+            seen_args.append(list(extra))
             if phase["first"]:
+                how = c.get("first", "ok")
                 res0 = []
                 for circ in circuits:
                     items = noiseless_counts(circ, n, inp, c["via"], random.Random(1), False)
                     res0.append({State(list(s_)): v for s_, v in items})
+                scribble(circuits)
+                if how == "raise":
+                    raise RuntimeError("the experiment failed")
+                if how == "short":
+                    return res0[:-1]
+                if how == "invalid":
+                    res0[0] = {State([1, 1] * n): 5}
                 return res0
             out = []
             for idx, circ in enumerate(circuits):
@@ -400,7 +468,7 @@ class C15:
                     aux["problems"].append(f"circuit {idx}: {prob}")
                 if k == "tomo":
                     items = noiseless_counts(circ, n, inp, c["via"], rng, c["drop_zero"])
-                    items = [[s, [v, 1]] for s, v in items]
+                    items = renorm(items, norm, rng)
                 elif k == "synthetic":
                     if lab is None:
                         items = [[dual_rail(0, n), [1, 1]]]
@@ -422,18 +490,36 @@ class C15:
                 d = {}
                 for s, (num, den) in items:
                     d[State(list(s))] = num if den == 1 else num / den
-                res.append(d)
+                res.append(SamplingResult(d, State(inp)) if c.get("as_result") else d)
+            scribble(circuits)
             return res
 
+        class Lab:
+            def run(self_, circuits, *extra):  # noqa: N805
+                return experiment(circuits, *extra)
+
+        def stale(circuits, *extra):  # noqa: ARG001
+            raise AssertionError("the experiment function given to the constructor was called after it had been replaced")
+
+        exp_form, args, args_form = c.get("exp_form", "ctor"), c.get("args"), c.get("args_form", "ctor")
+        ex = Lab().run if exp_form == "method" else experiment
         with _Patch(c.get("perm")) as patch:
-            tomo = StateTomography(n, base, experiment)
+            kw = {"experiment_args": list(args)} if (args is not None and args_form == "ctor") else {}
+            tomo = StateTomography(n, base, stale if exp_form == "setter" else ex, **kw)
+            if exp_form == "setter":
+                tomo.experiment = ex
+            if args is not None and args_form == "attr":
+                tomo.experiment_args = list(args)
             if twice:
                 try:
                     tomo.process()
                 except Exception:  # noqa: BLE001   (outcome of the first call is not what this case observes)
                     pass
                 phase["first"] = False
-                apply_gates(base, c["gates"][-1:])
+                if edit == "param":
+                    param.set(c["th"][1])
+                else:
+                    apply_gates(base, c["gates"][-1:])
                 before = snapshot(base)
             try:
                 rho = tomo.process()
@@ -445,6 +531,12 @@ class C15:
         after = snapshot(base)
         if not snap_equal(before, after):
             aux["problems"].append("base circuit changed by process()")
+        if rho is not None:
+            try:
+                if not np.array_equal(np.array(tomo.rho), np.array(rho), equal_nan=True):
+                    aux["problems"].append(".rho is not the matrix the last process() call returned")
+            except Exception as e:  # noqa: BLE001
+                aux["problems"].append(f".rho raised {type(e).__name__} after process()")
         if patch.req is not None:
             req = patch.req
             for idx, (a, b) in enumerate(zip(req, received)):
@@ -471,6 +563,14 @@ class C15:
                     with warnings.catch_warnings():
                         warnings.simplefilter("ignore")      # scipy: 'Matrix is singular' for pure states
                         aux["fidelity"] = float(tomo.fidelity(ref))
+                        if k == "tomo":
+                            # a state orthogonal to the prepared one: any notion of fidelity gives 0 there
+                            psi = amps / nrm
+                            j = int(np.argmin(np.abs(psi)))
+                            phi = -np.conj(psi[j]) * psi
+                            phi[j] += 1
+                            phi = phi / np.linalg.norm(phi)
+                            aux["fidelity_orth"] = float(tomo.fidelity(np.outer(phi, phi.conj())))
                 except Exception as e:  # noqa: BLE001
                     aux["problems"].append(f"fidelity raised {type(e).__name__}: {e}")
         return {"res": res, "aux": aux}
@@ -501,7 +601,7 @@ class C15:
             if not snap_equal(before, snapshot(base)):
                 return "base circuit changed by process()"
             ref = np.outer(psi, psi.conj())
-            if np.abs(rho - ref).max() > 1e-6:
+            if not (np.abs(rho - ref).max() <= 1e-6):
                 return f"rho differs from the prepared state by {np.abs(rho - ref).max():.3g}"
             return None
 
@@ -533,7 +633,11 @@ class C15:
 
         base = {"c2": lambda: lw.Circuit(2), "c4": lambda: lw.Circuit(4), "c5": lambda: lw.Circuit(5),
                 "cz_h": lambda: qubit.CZ_Heralded(), "list": lambda: [1, 2, 3], None: lambda: None}[c["base"]]()
-        ex = {"fn": fn, "lambda": (lambda circuits: []), "none": None, "builtin": len, "callable_obj": Obj()}[c["ex"]]
+        class Lab:
+            def run(self, circuits):
+                return []
+        ex = {"fn": fn, "lambda": (lambda circuits: []), "none": None, "builtin": len, "callable_obj": Obj(),
+              "method": Lab().run}[c["ex"]]
         try:
             StateTomography(c["nq"], base, ex)
             return {"res": {"ok": []}}
@@ -557,7 +661,7 @@ class C15:
             is_circ = c["base"] in ("c2", "c4", "c5", "cz_h")
             modes = {"c2": 2, "c4": 4, "c5": 5, "cz_h": 4}.get(c["base"], 0)
             return (f"run_c15_init {cb(is_int)} {cb(is_circ)} {cz(nq if is_int else 0)} {cz(modes)} "
-                    f"{cb(c['ex'] in ('fn', 'lambda'))}")
+                    f"{cb(c['ex'] in ('fn', 'lambda', 'method'))}")
         req = c.get("_req") or []
         results = c.get("_results") or []
         rq = clist(clist(PCTOR[x] for x in s.split(",")) for s in req)
@@ -596,7 +700,7 @@ class C15:
         if k == "init":
             nq = c["nq"]
             valid = (isinstance(nq, int) and not isinstance(nq, bool) and c["base"] in ("c2", "c4", "c5", "cz_h")
-                     and {"c2": 2, "c4": 4, "c5": 5, "cz_h": 4}[c["base"]] == 2 * nq and c["ex"] in ("fn", "lambda"))
+                     and {"c2": 2, "c4": 4, "c5": 5, "cz_h": 4}[c["base"]] == 2 * nq and c["ex"] in ("fn", "lambda", "method"))
             if valid != ("ok" in obs["res"]):
                 return f"constructor accepted/rejected wrongly: {obs['res']}"
             return None
@@ -606,6 +710,11 @@ class C15:
             return "; ".join(aux["problems"][:3])
         if k == "anc":
             return None
+        exp_args = list(c.get("args") or [])
+        if "args_seen" in aux and not aux["args_seen"]:
+            return "the experiment function in force (given to the constructor or assigned to .experiment afterwards) was never called"
+        if any(a != exp_args for a in aux.get("args_seen", [])):
+            return f"the experiment callback was called with extra arguments {aux.get('args_seen')}, expected {exp_args} in every call"
         want = sorted(",".join(t) for t in itertools.product("XYZ", repeat=n))
         if aux["n_circuits"] != 3**n or aux["settings"] != want:
             return f"callback received {aux['n_circuits']} circuits with settings {aux['settings'][:6]}.. (expected one per setting, {3**n})"
@@ -617,12 +726,16 @@ class C15:
                 if "ok" not in res:
                     return f"well-formed counts rejected: {res}"
                 rho = np.array([[complex(*e) for e in row] for row in res["ok"]])
+                if not np.all(np.isfinite(rho)):
+                    return "rho from valid counts has entries that are not finite numbers"
                 if np.abs(rho - rho.conj().T).max() > 1e-9 or abs(np.trace(rho) - 1) > 1e-9:
                     return "rho from valid counts is not Hermitian with unit trace"
             return None
         if "ok" not in res:
             return f"process() raised {res}"
         rho = np.array([[complex(*e) for e in row] for row in res["ok"]])
+        if not np.all(np.isfinite(rho)):
+            return "rho has entries that are not finite numbers"
         if "ref" not in aux:
             return None           # the base circuit has (numerically) zero post-selection probability
         ref = np.array([[complex(*e) for e in row] for row in aux["ref"]])
@@ -635,8 +748,10 @@ class C15:
         if abs(np.trace(rho) - 1) > 1e-9:
             return "rho does not have unit trace"
         if k == "tomo" or c["rank"] == 1:
-            if abs(aux.get("fidelity", 0.0) - 1) > 1e-6:
+            if not (abs(aux.get("fidelity", 0.0) - 1) <= 1e-6):
                 return f"fidelity against the prepared state is {aux.get('fidelity')}"
+            if not (aux.get("fidelity_orth", 0.0) <= 1e-3):
+                return f"fidelity against a state ORTHOGONAL to the prepared one is {aux.get('fidelity_orth')}"
         return None
 
     def nontrivial(self, c, obs):
